@@ -8,9 +8,10 @@ for f in sorted(glob.glob(os.path.join(V, 'seeded', '*', 'meta.json')) + glob.gl
     rows.append((os.path.relpath(os.path.dirname(f), os.path.join(V, 'seeded')), m))
 out = ['# Seeded changes and which checks catch them', '',
        'Every directory holds `patch.diff` (apply with `git -C /repo apply`), for the independently written ones also the author\'s',
-       '`demo.cpp` + `README.md`, and `meta.json`.  `C??-A..F` (rounds 1-3: A/B, C/D, E/F) were written by fresh sub-agents that saw only the property text and a scratch',
+       '`demo.cpp` + `README.md`, and `meta.json`.  `C??-A..H` (rounds 1-4: A/B, C/D, E/F, G/H) were written by fresh sub-agents that saw only the property text and a scratch',
        'worktree; `self/*` are the check author\'s own mutations (DESIGN §8).  "quick" = result of `./vcheck <ID> --tier quick` with the',
-       'change applied (tools/seedcheck.py).  A change is expected to be caught by the check of the property it breaks; other columns are informative.', '',
+       'change applied (tools/seedcheck.py).  A change is expected to be caught by the check of the property it breaks; other columns are informative.',
+       '`[rebased]`: later fix:/hook commits changed the lines the seed touches; `patch.diff` is the change re-made on the current tree, `patch.as-written.diff` the original.', '',
        '| change | breaks | what | detected by (quick) | not detected by | first violation keys |', '|---|---|---|---|---|---|']
 for name, m in rows:
     res = m.get('checks_quick') or m.get('quick_results') or {}
@@ -21,6 +22,9 @@ for name, m in rows:
     for k, v in sorted(list(res.items()) + list(extra.items()), key=lambda kv: kv[0]):
         keys += v.get('keys', [])[:2]
     what = m.get('title') or m.get('description') or ''
+    if m.get('obsolete'): what = '[no longer a defect: ' + m['obsolete'].get('since', '') + '] ' + what
+    elif m.get('rebased'): what = '[rebased] ' + what
+    if m.get('not_claimed'): what = '[outside the statement: see meta.json] ' + what
     out.append('| %s | %s | %s | %s | %s | %s |' % (name, m.get('breaks_property') or ','.join(m.get('properties', [])), what.replace('|', '/')[:160], ', '.join(det) or '-', ', '.join(mis) or '-', '; '.join(dict.fromkeys(keys))[:200].replace('|', '/')))
 open(os.path.join(V, 'seeded', 'README.md'), 'w').write('\n'.join(out) + '\n')
 print('seeded/README.md: %d changes' % len(rows))
